@@ -63,7 +63,13 @@ class PfWorld(World):
             # 3D: the closed-form spectral decomposition has its own repeated-eigenvalue cases
             p.update(dim=3, material="iso", planeStress=False)
             mesh = ["hexa8_a", "tetra4_a", "prism6_a"][int(rng.integers(3))]
-        return {"params": p, "mesh": mesh, "nops": int(rng.integers(8, 25)), "faults": bool(faults), "zero_history": bool(rng.random() < 0.12)}
+        cfg = {"params": p, "mesh": mesh, "nops": int(rng.integers(8, 25)), "faults": bool(faults), "zero_history": bool(rng.random() < 0.12)}
+        if rng.random() < 0.2:
+            # a Dirichlet condition on the damage field (an initial crack d = 1, a protected zone d = 0, a partly damaged
+            # inclusion) on one or two nodes of a third boundary entity: a constraint of the damage problem, which every
+            # irreversibility solver -- the bounded least-squares one included -- has to honour
+            cfg["d_bc"] = {"n": int(rng.integers(1, 3)), "val": [0.0, 0.6, 1.0, 1.0][int(rng.integers(4))]}
+        return cfg
 
     def __init__(self, cfg, ctx):
         super().__init__(cfg, ctx)
@@ -128,6 +134,16 @@ class PfWorld(World):
                 # listed finding: without it the AT1 damage system is singular whenever psi+ vanishes everywhere.
                 # A damage-free clamp keeps the system regular so that the rest of the history can be explored.
                 sim.add_dirichlet(m.Nodes_Tags(self.tagA), [0.0], ["d"], problemType=sim.ProblemTypes.damage)
+            dbc = self.cfg.get("d_bc")
+            self.d_nodes = None
+            if dbc:
+                held = set(np.asarray(m.Nodes_Tags(self.tagA)).tolist()) | set(np.asarray(m.Nodes_Tags(self.tagB)).tolist())
+                third = [t for t in self.tags if t not in (self.tagA, self.tagB)]
+                cand = [n for t in third for n in np.asarray(m.Nodes_Tags(t)).tolist() if n not in held]
+                cand = sorted(set(cand))
+                if cand:
+                    self.d_nodes = np.array(cand[: dbc["n"]], dtype=int)
+                    sim.add_dirichlet(self.d_nodes, [float(dbc["val"])], ["d"], problemType=sim.ProblemTypes.damage)
 
     def _apply_sides(self, sim, m):
         ux, uy = self.load
@@ -350,6 +366,13 @@ class PfWorld(World):
                 if np.all(np.isfinite(d_live)) and (d_live.min() < lb.min() - 1e-8 and np.any(d_live < lb - 1e-8) or d_live.max() > 1 + 1e-8):
                     raise Violation("bounds-violated", f"BoundConstrain: damage outside [previous damage, 1]: min(d - lb) = {(d_live - lb).min():.3e}, max d = {d_live.max():.3e}")
                 ctx.checked()
+            if getattr(self, "d_nodes", None) is not None:
+                # the prescribed damage is held exactly (constraints of the damage problem, whatever the back end)
+                want = float(self.cfg["d_bc"]["val"])
+                if np.all(np.isfinite(d_live)) and not refs.maxabs(np.asarray(d_live)[self.d_nodes] - want) <= 1e-12:
+                    raise Violation("damage-constraint-not-held", f"[{self.p['solver']}] damage prescribed to {want} on nodes {self.d_nodes.tolist()} is {np.asarray(d_live)[self.d_nodes].tolist()} after Solve")
+                ctx.checked()
+                ctx.probe("damage_dirichlet_condition_" + self.p["solver"])
             self._check_splits("after Solve")
             if self.zero:
                 self._check_zero("after Solve with no loading", d_live)
@@ -423,6 +446,11 @@ class PfWorld(World):
         raise ValueError(name)
 
     def _check_zero(self, what, d):
+        if getattr(self, "d_nodes", None) is not None and float(self.cfg["d_bc"]["val"]) != 0.0:
+            # a prescribed non-zero damage is a loading of the damage problem: finiteness only
+            if not np.all(np.isfinite(d)):
+                raise Violation("damage-without-loading", f"{what}: the damage is NaN/Inf with a prescribed damage and no mechanical load [{self.p['split']}, {self.p['regularization']}, {self.p['solver']}]")
+            return
         if not np.all(np.isfinite(d)):
             raise Violation("damage-without-loading", f"{what}: the damage is NaN/Inf although no load was ever applied [{self.p['split']}, {self.p['regularization']}, {self.p['solver']}]")
         if refs.maxabs(d) > 1e-12:
